@@ -188,6 +188,15 @@ def generate(rng, tier, index):
         cfg["extra"] = [e for e in cfg.get("extra", []) if e[0] != idx] + [[idx, t, rng.getrandbits(16)], [rng.randint(401, 9000), "int", rng.getrandbits(32)],
                                                                           [idx, t, rng.getrandbits(16)], [rng.randint(9001, 65000), "short", rng.getrandbits(16)]]
         cfg["duplicate_setting"] = idx
+        if idx == 36 and rng.random() < 0.6:
+            # index 36 once as a short (the deprecated inject options) and once as a pointer (the watermark hash): one number,
+            # two names - in either order, with other settings in between
+            a = [36, "short", rng.getrandbits(16)]
+            b = [36, "ptr", hx(bytes(rng.getrandbits(8) for _ in range(rng.choice([16, 32]))))]
+            first, second = (a, b) if rng.random() < 0.5 else (b, a)
+            cfg["extra"] = [e for e in cfg["extra"] if e[0] != 36][:1] + [first, [rng.randint(401, 9000), "int", rng.getrandbits(32)], second,
+                                                                         [rng.randint(9001, 65000), "short", rng.getrandbits(16)]]
+            cfg["setting_36_under_both_types"] = True
     if rng.random() < 0.08:
         # a damaged configuration: one setting whose pretty function fails (DNS idle address of the wrong length). The pretty
         # views and everything built on them then raise - every time, the same way, whatever was done before
@@ -275,6 +284,11 @@ def run_op(op: str, st: State, seams) -> str:
     from dissect.cobaltstrike.client import HttpBeaconClient
     from dissect.cobaltstrike.beacon import BeaconConfig as BeaconConfig_
     seams.rng.seed(12345)
+    st.nops = getattr(st, "nops", 0) + 1
+    if op == "client_dry:defaults":
+        # beacon id and pid are given: the set-up is then a function of them alone, in whatever state earlier uses left the
+        # process-wide generator (here: a state that depends on how much was done with this object before)
+        seams.rng.seed(777000 + st.nops)
     bc = st.bc
     if op.startswith("view:"):
         return repr(list(getattr(bc, op[5:]).items()))
